@@ -221,7 +221,10 @@ def space(tier):
             units.append(({"program": p, "cfg": {"env_kinds": ["page"], "page_modes": [0, 1, 4]}}, {"page": 1, "total": 1}, cap))
             continue
         units.append(({"program": p, "cfg": {"env_kinds": ["crash"]}},
-                      {"crash": 1, "total": 1} if quick else {"crash": 2, "total": 2}, cap))
+                      {"crash": 1, "total": 1} if quick else {"crash": 3, "total": 3}, cap))
+        if not quick:
+            units.append(({"program": p, "cfg": {"env_kinds": ["crash", "page"], "page_modes": [0, 1, 3, 5]}},
+                          {"crash": 2, "page": 2, "total": 3}, cap))
         if "par[" in p["name"]:
             for pol in ("low", "high"):
                 units.append(({"program": p, "cfg": {"env_kinds": ["crash"], "policy": pol}}, {"crash": 1, "total": 1}, cap))
